@@ -43,6 +43,9 @@ type Fix struct {
 	Time   time.Time
 }
 
+// lastFix is the most recently created fixture (used by the generic C18 hook in Run.Trace).
+var lastFix *Fix
+
 var BaseTime = time.Date(2024, 1, 1, 0, 0, 0, 0, time.UTC)
 
 // setupDeterministic is app/apptesting.Setup with fixed keys: the validator key and the genesis
@@ -112,6 +115,7 @@ func NewFix(t *testing.T) *Fix {
 	}
 	f := &Fix{T: t, App: a, Height: 1, Time: BaseTime}
 	f.setCtx()
+	lastFix = f
 	return f
 }
 
